@@ -3,6 +3,8 @@
    context built with DefaultCacheStore, on = false the one built with .no_cache() = CacheSink;
    ver = cur is the code after the two "fix:" commits of this property, pinned the code before).
    Vocabulary: spec/CacheSpec.v ([Declared], [Inv], [Coh], [sublist]).
+   A register's length is [len_of r vars]: the immediate <Length>, or the current value of the variable
+   node named by <pLength>; cache keys are (node, address, current length).
    The rejection script [rej] lists the (write-access) indices of device writes that fail
    transiently, histories add more with OpReject; accesses outside the image fail always. *)
 From Cam Require Import Outcome Bytes Mem BitField RegCodec Cache CacheSpec P_C01 P_C04 CacheClient P_C04c.
@@ -49,9 +51,9 @@ Print Assumptions C04_nocache_never_served.
 
 (* ... so every value() of it reads the device *)
 Theorem C04_nocache_value_reads : forall y s n r a,
-  Inv y s -> node_at y n = Some (NReg r) -> cacheable r = false -> 0 <= g_len r ->
+  Inv y s -> node_at y n = Some (NReg r) -> cacheable r = false -> 0 <= len_of r (c_vars s) ->
   In (g_kind r) [0; 1; 2; 4] -> address r (c_vars s) = Ok a ->
-  d_log (c_dev (snd (step true cur y (OpValue n) s))) = RdAcc a (g_len r) :: d_log (c_dev s).
+  d_log (c_dev (snd (step true cur y (OpValue n) s))) = RdAcc a (len_of r (c_vars s)) :: d_log (c_dev s).
 Proof. exact nocache_value_reads. Qed.
 Print Assumptions C04_nocache_value_reads.
 
@@ -68,7 +70,7 @@ Print Assumptions C04_own_write_visible.
    of the image of x - hence x itself for every x the register can hold (C01's round trip) *)
 Theorem C04_own_write_visible_intreg : forall y n r x s,
   Inv y s -> node_at y n = Some (NReg r) -> g_kind r = 0 ->
-  supported_int_len (g_len r) = true -> int_in_range (g_len r) (g_sign r) x ->
+  supported_int_len (len_of r (c_vars s)) = true -> int_in_range (len_of r (c_vars s)) (g_sign r) x ->
   fst (step true cur y (OpSet n [x]) s) = sh_unit (Ok tt) ->
   fst (step true cur y (OpValue n) (snd (step true cur y (OpSet n [x]) s))) = sh_z (Ok x).
 Proof. exact own_write_intreg_value. Qed.
@@ -85,7 +87,7 @@ Theorem C04_hypotheses_satisfiable :
 Proof. exact hypotheses_satisfiable. Qed.
 Print Assumptions C04_hypotheses_satisfiable.
 
-(* [Declared] is decidable for systems without index variables *)
+(* [Declared] is decidable for systems without index and length variables *)
 Theorem C04_declared_static : forall y, declared_static y = true -> Declared y.
 Proof. exact declared_static_sound. Qed.
 Print Assumptions C04_declared_static.
@@ -141,6 +143,52 @@ Theorem C04_client_example :
   (length (cl_log xc) < length (cl_log xu))%nat.
 Proof. exact client_example. Qed.
 Print Assumptions C04_client_example.
+
+(* REGISTERS WHOSE LENGTH IS A VARIABLE (<pLength>).  They are ordinary members of the systems all theorems above
+   quantify over ([g_len r = LVar slot]); [Declared] compares byte ranges under every producible length.
+   Non-vacuity: a StringReg whose length shrinks (8 -> 4 -> 2) and grows again along a history and is written while
+   short, with an aliasing IntReg: [Declared] holds, both runs print the same (the listed values), and the cached
+   run needs 8 device accesses where the uncached one needs 14 *)
+Theorem C04_plength_example :
+  Declared ex_plen /\
+  let xc := run true cur ex_plen 256 ex_plen_image [8] [] ex_plen_history in
+  let xu := run false cur ex_plen 256 ex_plen_image [8] [] ex_plen_history in
+  outputs xc = outputs xu /\ final_mem xc = final_mem xu /\
+  outputs xc = [10; 0; 8; 65; 66; 67; 68; 69; 70; 71; 72;  10; 0; 8; 65; 66; 67; 68; 69; 70; 71; 72;  1; 0;
+                6; 0; 4; 65; 66; 67; 68;  6; 0; 4; 65; 66; 67; 68;  1; 0;
+                10; 0; 8; 65; 66; 67; 68; 69; 70; 71; 72;  1; 0;  5; 0; 3; 97; 98; 99;  1; 0;
+                4; 0; 2; 97; 98;  1; 0;  5; 0; 3; 97; 98; 99;  2; 0; 99;  2; 0; 99;  1; 0;
+                6; 0; 4; 97; 98; 49; 49;  1; 0;  6; 0; 4; 97; 98; 49; 49] /\
+  (length (access_log xc) < length (access_log xu))%nat.
+Proof. exact plength_example. Qed.
+Print Assumptions C04_plength_example.
+
+(* the cache key includes the length: in every state satisfying the invariant (every reachable state, by
+   C04_coherence_init / _inv) a cache entry under length l holds exactly l bytes, a block found under the
+   register's current key has exactly the register's current length, and so have the bytes with_cache_or_read
+   hands to the decoder (int_from_slice, float_from_slice and the string scan take the width from them) *)
+Theorem C04_key_includes_length : forall y s, Inv y s ->
+  (forall n a l bs, In ((n, a, l), bs) (c_cache s) -> zlen bs = l) /\
+  (forall n r a bs, address r (c_vars s) = Ok a ->
+     c_find (n, a, len_of r (c_vars s)) (c_cache s) = Some bs -> zlen bs = len_of r (c_vars s)) /\
+  (forall n r bs s', m_cached_bytes true n r s = (Ok bs, s') -> zlen bs = len_of r (c_vars s)).
+Proof. exact key_includes_length. Qed.
+Print Assumptions C04_key_includes_length.
+
+(* [Declared] asks a register whose own keys can overlap (one address under two lengths, two selector positions
+   closer than the length) to be its own pInvalidator.  That clause cannot be dropped for the code as it is: under
+   the hypothesis worded as in the property text ([DeclaredOthers]: a pInvalidator for every node that can alter
+   ANOTHER register's bytes, which [Declared] implies) a WriteThrough register with a variable length is not
+   transparent - read 8 bytes, length := 4, write, length := 8, read answers the block cached before the write *)
+Theorem C04_plength_needs_self_invalidator :
+  exists y base image vars rej h, DeclaredOthers y /\
+    outputs (run true cur y base image vars rej h) <> outputs (run false cur y base image vars rej h).
+Proof. exact own_keys_need_self_invalidator. Qed.
+Print Assumptions C04_plength_needs_self_invalidator.
+
+Theorem C04_plength_declared_others : forall y, Declared y -> DeclaredOthers y.
+Proof. exact declared_others. Qed.
+Print Assumptions C04_plength_declared_others.
 
 (* The code before the "fix:" commits violates the property. *)
 
